@@ -462,6 +462,27 @@ class TreeSim(WorldBase):
                 raise Skip("yaml reload called exit()")
             shape = list(src.shape)
             default = 0
+        elif route == "adopt":
+            # a sub-tree the program still holds although it was dropped from its tensor becomes the root of a new tensor
+            hs = [h for h in self.ihandles if h["slot"] in self.slots]
+            if not hs:
+                raise Skip("no kept interior reference")
+            h = hs[a.get("h", 0) % len(hs)]
+            src = self.slots[h["slot"]]
+            f = h["fiber"]
+            if any(x is f for lv in ob.levels(src.root) for x in lv) or f.getOwner() is not None:
+                raise Skip("not an orphan")
+            below = src.depth - h["level"]
+            if below < 1 or ob.wellformed(f, below):
+                raise Skip("orphan is not a tree of uniform depth")
+            shape = list(src.shape[h["level"]:])
+            if any(not isinstance(x, int) for x in shape):
+                raise Skip("shape")
+            default = src.default
+            t = Tensor.fromFiber([f"A{i}" for i in range(below)], f, shape=shape, default=default)
+            self.ihandles = [x for x in self.ihandles if x is not h]
+            depth = below
+            self.probe("orphan_adopted_by_a_new_tensor")
         elif route == "setroot":
             # a fresh tensor whose root is adopted from an *owned* fiber of another tensor
             src = self.slot(a["src"])
@@ -484,6 +505,8 @@ class TreeSim(WorldBase):
             for i, r in enumerate(ids[:len(t.ranks)]):
                 if i in a["fmtU"]:
                     t.setFormat(t.getRankIds()[i], "U")
+        if route == "adopt" and any(ob.identity_set(t).keys() & ob.identity_set(sl2.t).keys() for k2, sl2 in self.slots.items() if k2 != s):
+            raise Skip("shares objects with a live tensor")
         self.slots[s] = Slot(t, shape, default, route)
         if route in PLAIN_ROUTES or (route == "dcopy" and a["src"] not in self.nonplain):
             self.nonplain.discard(s)
@@ -1129,6 +1152,17 @@ class TreeSim(WorldBase):
             return {"status": f"exc:{type(e).__name__}"}
         self.probe("orphan_reference_used")
         return {}
+
+    def gen_adopt(self, g):
+        if not self.ihandles or self.prop not in ("C01", "C02", "C10"):
+            return None
+        cands = [s for s in self.slots if not self.frozen(s)]
+        if len(self.slots) < 2 or not cands:
+            return None
+        live = {h["slot"] for h in self.ihandles}
+        cands = [s for s in cands if s not in live] or cands
+        return ["op", "new", {"slot": g.choice(cands), "route": "adopt", "depth": 1, "shape": [1], "default": 0,
+                              "h": g.randrange(1 << 16)}]
 
     def gen_reroot(self, g):
         s = self.pick_slot(g)
@@ -1878,6 +1912,8 @@ class TreeSim(WorldBase):
         if not initial or s > 0:
             routes += ["dcopy", "yaml", "setroot"]
         route = g.choice(routes)
+        if not initial and self.prop in ("C02", "C01", "C10") and self.ihandles and g.random() < 0.35:
+            return {"slot": s, "route": "adopt", "depth": 1, "shape": [1], "default": 0, "h": g.randrange(1 << 16)}
         if self.prop in ("C01", "C03", "C05", "C10") and s > 0 and g.random() < 0.12:
             S = g.randint(2, 6)
             return {"slot": s, "route": "free1", "depth": 1, "shape": [S], "default": 0,
@@ -2472,7 +2508,7 @@ def _weighted(g, w):
 
 ob._k = lambda c: repr(c)
 
-ALLMUT = {"ref": 6, "hw": 3, "posref": 2, "append": 2, "extend": 1, "setitem": 3, "iol": 0.8, "fiadd": 1, "fimul": 1,
+ALLMUT = {"ref": 6, "hw": 3, "posref": 2, "append": 2, "extend": 1, "setitem": 3, "iol": 0.8, "adopt": 1.0, "fiadd": 1, "fimul": 1,
           "filshift": 1.5, "updc": 1.5, "updp": 1.5, "updbelow": 1, "clear": 1, "reroot": 0.7, "orphan": 1.2, "populate": 3, "descend": 6, "ishaperef": 2, "coishaperef": 1,
           "new_op": 0.5}
 BASE_WEIGHTS = {
